@@ -305,6 +305,12 @@ func transform(path, rel string, src []byte, simsyncPath string, r1, r2, r3, r5 
 					keep[importName(f, "github.com/drand/drand/v2/internal/dkg")] = "var _ = %s.NewDKGStore"
 					hits["R4.NewDKGStore"]++
 				}
+				if s, ok := isSel(x.Fun, importName(f, "github.com/drand/drand/v2/internal/chain/memdb"), "NewStore"); ok && len(x.Args) == 1 {
+					// (the in-memory store has no folder of its own: the node is identified by the folder its bolt store would have)
+					edits = append(edits, edit{off(s.Pos()), off(s.End()) - off(s.Pos()), "verifNewMemStore"}, edit{off(x.Lparen) + 1, 0, "bp.opts.DBFolder(beaconName), "})
+					keep[importName(f, "github.com/drand/drand/v2/internal/chain/memdb")] = "var _ = %s.NewStore"
+					hits["R4.NewMemStore"]++
+				}
 				if s, ok := isSel(x.Fun, importName(f, "github.com/drand/drand/v2/internal/chain/boltdb"), "NewBoltStore"); ok {
 					edits = append(edits, edit{off(s.Pos()), off(s.End()) - off(s.Pos()), "verifNewBoltStore"})
 					keep[importName(f, "github.com/drand/drand/v2/internal/chain/boltdb")] = "var _ = %s.NewBoltStore"
